@@ -185,7 +185,7 @@ func (r *Rng) Value(p Profile) any {
 }
 
 func (r *Rng) Profile() Profile {
-	kinds := []int{PSmallInt, PSmallInt, PMixedNum, PMixedNum, PString, PTime, PMixed, PMixed, PArray, PBoolNil}
+	kinds := []int{PSmallInt, PSmallInt, PMixedNum, PMixedNum, PString, PTime, PMixed, PMixed, PArray, PBoolNil, PSmallInt, PMixedNum, PBigInt}
 	p := Profile{Kind: Pick(r, kinds)}
 	switch r.Intn(4) {
 	case 0:
